@@ -14,6 +14,7 @@
 
 
 import warnings
+from copy import deepcopy
 
 import torch
 from torch.nn import functional as F
@@ -68,7 +69,7 @@ class DensityMatrix(NeuralStateBase):
             _warn_on_missing_gpu(gpu)
             self.rbm_am = module.to(self.device)
             self.rbm_am.device = self.device
-            self.rbm_ph = module.to(self.device).clone()
+            self.rbm_ph = deepcopy(module.to(self.device))
             self.rbm_ph.device = self.device
 
         self.num_visible = self.rbm_am.num_visible
